@@ -64,6 +64,17 @@ def processLine (line : String) : String :=
       else if isUnquotedValueSafe v != bool j "safe" then s!"DIVERGE isUnquotedValueSafe v={(str j "v").quote}"
       else if isUnquotedPathSafe v != bool j "pathSafe" then s!"DIVERGE isUnquotedPathSafe v={(str j "v").quote}"
       else "ok"
+    | "fmtfront" =>
+      -- the command line of the real binary and the MCP tool, on the same file: exactly the formatter's text for what parses,
+      -- nothing for what does not; the file itself is never touched by either
+      let tag := s!"src={((str j "src").take 120).toString.quote}"
+      let parses := bool j "parses"
+      if !(bool j "fileUntouched") then s!"PROP C19 config-fmt-front-end-changed-the-file {tag}"
+      else if parses && (int j "cliExit" != 0 || !(bool j "cliSame")) then s!"PROP C19 cli-config-fmt-differs-from-the-formatter exit={int j "cliExit"} {tag}"
+      else if !parses && (int j "cliExit" == 0 || nat j "cliPrinted" != 0) then s!"PROP C19 cli-config-fmt-printed-something-for-a-file-that-does-not-parse exit={int j "cliExit"} {tag}"
+      else if parses && (bool j "mcpRefused" || !(bool j "mcpSame")) then s!"PROP C19 mcp-config-fmt-preview-differs-from-the-formatter {tag}"
+      else if !parses && !(bool j "mcpRefused") then s!"PROP C19 mcp-config-fmt-preview-answered-for-a-file-that-does-not-parse {tag}"
+      else "ok"
     | "roundtrip" =>
       let tag := s!"origin={str j "origin"} routes={nat j "nroutes"} valid={bool j "ok1"}"
       if str j "fmtErr" != "" then s!"PROP C19 format-fails {tag} err={str j "fmtErr"}"
